@@ -271,27 +271,52 @@ fn compile_output_block(
     Ok(output)
 }
 
-/// The quantities minted and burned of an asset are aggregated over all the blocks; the net
-/// total must still fit the ledger's signed 64-bit quantity.
-fn check_mint_total(parts: &[primitives::Multiasset<primitives::NonZeroInt>]) -> Result<(), Error> {
-    let mut totals: BTreeMap<(primitives::PolicyId, Vec<u8>), i128> = BTreeMap::new();
+/// The quantities minted and burned of an asset are aggregated over all the blocks, in
+/// 128 bits so that no partial sum can overflow; the net total must fit the ledger's signed
+/// 64-bit quantity, and an asset whose quantities cancel out is not part of the mint field.
+fn aggregate_mint(
+    parts: &[primitives::Multiasset<primitives::NonZeroInt>],
+) -> Result<Option<primitives::Mint>, Error> {
+    let mut totals: BTreeMap<primitives::PolicyId, BTreeMap<primitives::AssetName, i128>> =
+        BTreeMap::new();
 
     for part in parts {
         for (policy, names) in part.iter() {
             for (name, amount) in names.iter() {
-                *totals.entry((*policy, name.to_vec())).or_default() += i64::from(*amount) as i128;
+                *totals
+                    .entry(*policy)
+                    .or_default()
+                    .entry(name.clone())
+                    .or_default() += i64::from(*amount) as i128;
             }
         }
     }
 
-    if totals.values().any(|x| i64::try_from(*x).is_err()) {
-        return Err(Error::CoerceError(
-            "aggregated mint quantity".to_string(),
-            "64-bit quantity".to_string(),
-        ));
+    let mut mint: primitives::Mint = BTreeMap::new();
+
+    for (policy, names) in totals {
+        let mut assets = BTreeMap::new();
+
+        for (name, total) in names {
+            let total = i64::try_from(total).map_err(|_| {
+                Error::CoerceError(
+                    "aggregated mint quantity".to_string(),
+                    "64-bit quantity".to_string(),
+                )
+            })?;
+
+            if let Ok(total) = primitives::NonZeroInt::try_from(total) {
+                assets.insert(name, total);
+            }
+        }
+
+        // a policy left without assets must go too, the ledger rejects an empty asset map
+        if !assets.is_empty() {
+            mint.insert(policy, assets);
+        }
     }
 
-    Ok(())
+    Ok(if mint.is_empty() { None } else { Some(mint) })
 }
 
 fn compile_mint_blocks(
@@ -330,9 +355,7 @@ fn compile_mint_block(tx: &tir::Tx) -> Result<Option<primitives::Mint>, Error> {
 
     let parts: Vec<_> = mints.into_iter().chain(burns).collect();
 
-    check_mint_total(&parts)?;
-
-    Ok(asset_math::aggregate_assets(parts))
+    aggregate_mint(&parts)
 }
 
 fn compile_inputs(tx: &tir::Tx) -> Result<Vec<primitives::TransactionInput>, Error> {
